@@ -53,6 +53,13 @@ def handle (op : String) (j : Json) : Except String Json := do
   let isz := includedSizes sizes ign
   let n := isz.length
   match op with
+  | "lookup" =>
+    let keys ← getNatListList j "keys"
+    let qs ← getNatListList j "qs"
+    let f := fun (l : List Nat) => Json.mkObj [("idx", natList l)]
+    let m := Base.omap (lookupName keys) qs
+    let s := Base.omap (fun q => if keys.idxOf q < keys.length then some (keys.idxOf q) else none) qs
+    pure (reply (optJ f m) (some (optJ f s)))
   | "l2g" =>
     let pts ← getPairs j "pts"
     let m := Base.omap (fun (x : Nat × Int) => if x.2 < 0 then none else fromLocal isz (encodeIdx ign x.1) x.2.toNat) pts
